@@ -1,0 +1,9 @@
+//go:build verif
+
+package icmp
+
+// VerifSetEchoIDBase sets the process-wide echo-id allocator; the next run gets uint16(v+1).
+func VerifSetEchoIDBase(v uint32) { curEchoID.Store(v) }
+
+// VerifNextEchoID calls the allocator.
+func VerifNextEchoID() uint16 { return nextEchoID() }
